@@ -392,7 +392,7 @@ ChanWF(ch) ==
   /\ ch.nfpp = (IF ch.pkt <= 10 THEN 1 ELSE ch.pkt \div 20) /\ ch.nbsub = (IF ch.pkt = 10 THEN 2 ELSE 4)
   /\ ch.flen = 5 * ch.fs * ch.nbsub /\ ch.ibx \in 0..ch.flen
   /\ ch.lpTrans \in 0..TRANSITION_FRAMES /\ ch.lpMode \in {0 - 2, 0, 1}
-  /\ ch.noSp \in 0..(D!SILK_BEFORE + D!SILK_MAXRUN) /\ (ch.inDTX = 1 => ch.useDTX = 1 /\ ch.noSp > D!SILK_BEFORE)
+  /\ ch.noSp \in 0..(D!SILK_BEFORE + D!SILK_MAXRUN) /\ (ch.inDTX = 1 => ch.useDTX = 1)
   /\ ch.snr = Snr(ch.fs, ch.nbsub, ch.tr) \/ ch.tr = 0
   /\ ch.lbrrGain \in {0} \cup 3..7
 SuperWF(s) ==
@@ -400,4 +400,6 @@ SuperWF(s) ==
   /\ s.nInt \in {1, 2} /\ s.nInt <= s.nAPI /\ s.nPrev = s.nInt
   /\ ChanWF(s.ch[1]) /\ (s.nInt = 2 => ChanWF(s.ch[2]) /\ s.ch[2].fs = s.ch[1].fs)
   /\ (s.allow = 1 => s.tsince = 0)
+  \* (the side channel's flag is not refreshed on mid-only frames)
+  /\ (s.ch[1].inDTX = 1 => s.ch[1].noSp > D!SILK_BEFORE)
 =============================================================================
